@@ -383,7 +383,7 @@ def _assign_group(target):
 
 TY.update({'fns': '(list F)', 'fn': 'F', 'gfns': '(list G)', 'gfn': 'G', 'E': 'E',
            'mapping': '(list (bytes * E))', 'optmapping': '(option (list (bytes * E)))',
-           'base': 'Base', 'R': 'R', 'D': 'D', 'cds': '(E * list G)'})
+           'base': 'Base', 'R': 'R', 'R0': 'R0', 'D': 'D', 'cds': '(E * list G)'})
 ELEM = {'fns': 'fn', 'gfns': 'gfn'}
 
 
@@ -789,10 +789,165 @@ while True:
   yield {item}
 """
 
-PRE = 'From FV Require Import Common.Bytes.\n'
+def O_text(qual, shape, text):
+  """A generator method whose loop shape `shape(fd)` accepts is emitted as the combinator call `text`
+  (Common/PyIter.v) over the separately translated item / guard expressions of the same loop."""
+  def emit(tree):
+    fd = find_def(tree, qual)
+    msg = shape(fd)
+    if msg:
+      raise Unsupported(f'{qual}: {msg}')
+    return text
+  return emit
+
+
+# ---- the SQL statements of SQLiteFederatedData -------------------------------------------------
+SQL_COLS = {'client_id': '(fst row)', 'data': '(col_data (snd row))', 'num_examples': '(col_num_examples (snd row))'}
+RANGE_PARAMS = "{'start': self._start, 'stop': self._stop}"
+
+
+def _execute_call(st):
+  """`cursor = self._connection.execute(<sql>, <params>)` -> (sql ast, params ast)"""
+  if not (isinstance(st, ast.Assign) and len(st.targets) == 1 and dotted(st.targets[0]) == 'cursor'
+          and isinstance(st.value, ast.Call) and dotted(st.value.func) == 'self._connection.execute'
+          and len(st.value.args) == 2 and not st.value.keywords):
+    raise Unsupported('not `cursor = self._connection.execute(sql, params)`')
+  return st.value.args
+
+
+def _range_sql(sql):
+  """f'SELECT <cols> FROM federated_data WHERE {self._range_where()}[ ORDER BY rowid];' -> (cols, ordered)"""
+  if not isinstance(sql, ast.JoinedStr) or len(sql.values) != 3:
+    raise Unsupported('SQL is not an f-string with one substitution')
+  a, mid, b = sql.values
+  if not (isinstance(a, ast.Constant) and isinstance(b, ast.Constant) and isinstance(mid, ast.FormattedValue)
+          and mid.conversion == -1 and mid.format_spec is None and isinstance(mid.value, ast.Call)
+          and dotted(mid.value.func) == 'self._range_where' and not mid.value.args and not mid.value.keywords):
+    raise Unsupported('SQL substitution is not {self._range_where()}')
+  m = re.fullmatch(r'SELECT (.+) FROM federated_data WHERE ', a.value)
+  if not m:
+    raise Unsupported('SQL head: ' + a.value)
+  tail = b.value
+  if tail not in (' ORDER BY rowid;', ';'):
+    raise Unsupported('SQL tail: ' + tail)
+  return [c.strip() for c in m.group(1).split(',')], tail.startswith(' ORDER')
+
+
+FETCH_LOOP = ast.dump(ast.parse("while True:\n  result = cursor.fetchone()\n  if result is None:\n    break\n  yield X").body[0].body[0]), \
+    ast.dump(ast.parse("while True:\n  result = cursor.fetchone()\n  if result is None:\n    break\n  yield X").body[0].body[1])
+
+
+def Q_range(qual, coqname):
+  """num_clients / client_ids / client_sizes / _read_clients: a range SELECT and what is made of its rows."""
+  def emit(tree):
+    fd = find_def(tree, qual)
+    b = _strip_doc(fd.body)
+    if len(b) != 2:
+      raise Unsupported(f'{qual}: expected execute + consume')
+    sql, params = _execute_call(b[0])
+    if ast.unparse(params) != RANGE_PARAMS:
+      raise Unsupported(f'{qual}: parameters are not {RANGE_PARAMS}')
+    cols, ordered = _range_sql(sql)
+    rows = '(sql_where (sqlite_range_where start stop) tbl)'
+    head = f'Definition {coqname} (start stop : option bytes) (tbl : list (bytes * V))'
+    if cols == ['COUNT(*)']:
+      if ordered or ast.unparse(b[1]) != 'return cursor.fetchone()[0]':
+        raise Unsupported(f'{qual}: COUNT(*) shape')
+      return f'{head} : option Z :=\n  option_map (fun rows => Z.of_nat (length rows)) {rows}.'
+    if not ordered:
+      raise Unsupported(f'{qual}: a listing without ORDER BY rowid has no defined order')
+    for c in cols:
+      if c not in SQL_COLS:
+        raise Unsupported(f'{qual}: column {c}')
+    lp = b[1]
+    if not (isinstance(lp, ast.While) and isinstance(lp.test, ast.Constant) and lp.test.value is True and not lp.orelse
+            and len(lp.body) == 3 and ast.dump(lp.body[0]) == FETCH_LOOP[0] and ast.dump(lp.body[1]) == FETCH_LOOP[1]
+            and isinstance(lp.body[2], ast.Expr) and isinstance(lp.body[2].value, ast.Yield)):
+      raise Unsupported(f'{qual}: not the fetchone loop')
+    y = ast.unparse(lp.body[2].value.value)
+    if y == 'result[0]' and len(cols) >= 1:
+      item = SQL_COLS[cols[0]]
+    elif y == 'tuple(result)':
+      item = '(' + ', '.join(SQL_COLS[c] for c in cols) + ')'
+    else:
+      raise Unsupported(f'{qual}: yields {y}')
+    return f'{head} :=\n  option_map (fetch_all (fun row => {item})) {rows}.'
+  return emit
+
+
+def Q_point(qual, coqname, ret_src, extra, rtype):
+  """get_client / client_size: explicit range guard, PRIMARY KEY lookup, KeyError otherwise.
+  ret_src: python source of the returned expression -> Gallina over `row`."""
+  def emit(tree):
+    fd = find_def(tree, qual)
+    b = _strip_doc(fd.body)
+    if not (len(b) == 2 and isinstance(b[0], ast.If) and not b[0].orelse and isinstance(b[1], ast.Raise)
+            and dotted(b[1].exc) == 'KeyError'):
+      raise Unsupported(f'{qual}: not guard + raise KeyError')
+    g = b[0]
+    ctx = BytesCtx(SELF_RANGE)
+    guard, _ = ctx.expr(g.test, {'start': 'optB', 'stop': 'optB', 'client_id': 'B'}, 'bool')
+    gb = g.body
+    if len(gb) != 3:
+      raise Unsupported(f'{qual}: guarded block shape')
+    sql, params = _execute_call(gb[0])
+    if not (isinstance(sql, ast.Constant) and isinstance(sql.value, str)) or ast.unparse(params) != '[client_id]':
+      raise Unsupported(f'{qual}: point lookup call')
+    m = re.fullmatch(r'SELECT (\w+) FROM federated_data WHERE client_id = \?', sql.value)
+    if not m or m.group(1) not in SQL_COLS:
+      raise Unsupported(f'{qual}: point lookup SQL: {sql.value}')
+    col = SQL_COLS[m.group(1)]
+    if ast.unparse(gb[1]) != 'result = cursor.fetchone()':
+      raise Unsupported(f'{qual}: fetchone')
+    r = gb[2]
+    if not (isinstance(r, ast.If) and not r.orelse and ast.unparse(r.test) == 'result is not None' and len(r.body) == 1
+            and isinstance(r.body[0], ast.Return)):
+      raise Unsupported(f'{qual}: result test')
+    got = ast.unparse(r.body[0].value)
+    if got not in ret_src:
+      raise Unsupported(f'{qual}: returns {got}')
+    val = ret_src[got].format(col=col)
+    return (f'Definition {coqname} {extra} (start stop : option bytes) (tbl : list (bytes * V)) (client_id : bytes) : res {rtype} :=\n'
+            f'  if {guard} then match sql_by_key client_id tbl with Some row => {val} | None => KeyErr end else KeyErr.')
+  return emit
+
+
+def O_shuffle(qual, coqname, src_py, targets, item_py, item_coq, extra, stype='S'):
+  """rng = np.random.RandomState(seed); while True: for <targets> in client_datasets.buffered_shuffle(<src>, buffer_size, rng): yield <item>
+  -> one pass: the source handed to a one-pass shuffle, items mapped."""
+  want = ast.dump(ast.Module(body=ast.parse(textwrap.dedent(f"""
+      rng = np.random.RandomState(seed)
+      while True:
+        for {targets} in client_datasets.buffered_shuffle({src_py}, buffer_size, rng):
+          yield {item_py}
+      """)).body, type_ignores=[]))
+
+  def emit(tree):
+    fd = find_def(tree, qual)
+    if [a.arg for a in fd.args.args] != ['self', 'buffer_size', 'seed']:
+      raise Unsupported(f'{qual}: parameters')
+    if ast.dump(ast.Module(body=_strip_doc(fd.body), type_ignores=[])) != want:
+      raise Unsupported(f'{qual}: not `while True: for .. in buffered_shuffle(<source>, buffer_size, rng): yield ..` with a fresh shuffle per pass')
+    return (f'Definition {coqname} {extra} (shuffle_one_pass : list {stype} -> option (list {stype})) (source : list {stype}) :=\n'
+            f'  option_map (map (fun s : {stype} => {item_coq})) (shuffle_one_pass source).')
+  return emit
+
+
+def _num_examples_call(ctx, e, env):
+  """client_datasets.num_examples(self._client_to_data_mapping[<id>], validate=False) -> num_examples_of <id>"""
+  if not (len(e.args) == 1 and isinstance(e.args[0], ast.Subscript) and dotted(e.args[0].value) == 'self._client_to_data_mapping'
+          and [k.arg for k in e.keywords] == ['validate'] and isinstance(e.keywords[0].value, ast.Constant)
+          and e.keywords[0].value.value is False):
+    raise Unsupported('num_examples call shape')
+  i, _ = ctx.expr(e.args[0].slice, env, 'B')
+  return f'(num_examples_of {i})', 'R0'
+
+
+PRE = 'From FV Require Import Common.Bytes Common.PyIter.\n'
 SELF_RANGE = {'self._start': 'start', 'self._stop': 'stop'}
-SEC = ('Section Obj.\nContext {F G E Base R D : Type}.\n'
-       'Context (applyc : F -> bytes -> E -> E) (applyb : G -> E -> E).\n')
+SEC = ('Section Obj.\nContext {F G E Base R D V Dt : Type}.\n'
+       'Context (applyc : F -> bytes -> E -> E) (applyb : G -> E -> E).\n'
+       'Context (col_data : V -> Dt) (col_num_examples : V -> Z).\n')
 SUBNAMES = {'self._client_ids': 'client_ids0'}
 SUB_CTOR = {'SubsetFederatedData': (['base', 'ids'], {'validate': ('const', False)})}
 MEM_CTOR = {'InMemoryFederatedData': (['mapping', 'fns', 'gfns'], {})}
@@ -842,6 +997,7 @@ MODULES = {
             O_expr('BatchPreprocessor.append', 'batch_preprocessor_append', [('fns', 'gfns'), ('fn', 'gfn')], 'gfns',
                    _ret_value, names={'self._fns': 'fns'}, ctors={'BatchPreprocessor': (['gfns'], {})}, shape=_only_return),
             O_chain_call('BatchPreprocessor.__call__', 'batch_preprocessor_call', 'gfns', 'applyb', False),
+            O_same('BatchPreprocessor.__init__', 'batch_preprocessor_init', "self._fns = tuple(fns)"),
             # ClientDataset.all_examples: self.preprocessor(self.raw_examples)
             O_expr('ClientDataset.all_examples', 'client_dataset_all_examples', [('raw_examples', 'E'), ('preprocessor', 'gfns')], 'E',
                    _ret_value, names={'self.raw_examples': 'raw_examples'}, shape=_only_return,
@@ -894,10 +1050,21 @@ MODULES = {
             O_expr('SubsetFederatedData.get_clients', 'subset_get_clients_item', [('client_id', 'B'), ('dataset', 'D')], ('B', 'D'),
                    lambda fd: _loop(fd).body[1].value.value,
                    shape=_for_yield('self._base.get_clients(client_ids)', ['client_id', 'dataset'], 'raise')),
-            O_same('SubsetFederatedData.shuffled_clients', 'subset_shuffled_clients', SHUFFLE_VIA_CLIENTS),
+            O_text('SubsetFederatedData.get_clients', _for_yield('self._base.get_clients(client_ids)', ['client_id', 'dataset'], 'raise'),
+                   'Definition subset_get_clients (client_ids0 : list bytes) (base_stream : stream (bytes * D)) : stream (bytes * D) :=\n'
+                   '  for_raise_yield (subset_get_clients_raises client_ids0) subset_get_clients_item (fst base_stream) (snd base_stream).'),
+            O_shuffle('SubsetFederatedData.shuffled_clients', 'subset_shuffled_pass', 'self.clients()', 'client_id, dataset',
+                      'client_id, dataset', 's', '{S}'),
+            O_same('ClientPreprocessor.__init__', 'client_preprocessor_init', "self._fns = tuple(fns)"),
             O_expr('SubsetFederatedData.client_sizes', 'subset_client_sizes_keeps', [('client_ids0', 'ids'), ('client_id', 'B')], 'bool',
                    lambda fd: _loop(fd).body[0].test, names=SUBNAMES,
                    shape=_for_yield('self._base.client_sizes()', ['client_id', 'size'], 'keep')),
+            O_expr('SubsetFederatedData.client_sizes', 'subset_client_sizes_item', [('client_id', 'B'), ('size', 'Z')], ('B', 'Z'),
+                   lambda fd: _loop(fd).body[0].body[0].value.value,
+                   shape=_for_yield('self._base.client_sizes()', ['client_id', 'size'], 'keep')),
+            O_text('SubsetFederatedData.client_sizes', _for_yield('self._base.client_sizes()', ['client_id', 'size'], 'keep'),
+                   'Definition subset_client_sizes (client_ids0 : list bytes) (base_sizes : list (bytes * Z)) : list (bytes * Z) :=\n'
+                   '  for_keep_yield (subset_client_sizes_keeps client_ids0) subset_client_sizes_item base_sizes.'),
         ],
     },
     'Gen_in_memory_federated_data': {
@@ -930,17 +1097,42 @@ MODULES = {
             # __init__: self._client_ids = sorted(self._client_to_data_mapping.keys())
             O_expr('InMemoryFederatedData.__init__', 'in_memory_init_client_ids', [('mapping', 'mapping')], 'ids',
                    _assign_value('self._client_ids'), names=PRE_NAMES),
-            O_same('InMemoryFederatedData.shuffled_clients', 'in_memory_shuffled_clients', SHUFFLE_VIA_CLIENTS),
-            O_same('InMemoryFederatedData.client_sizes', 'in_memory_client_sizes', """
+            O_shuffle('InMemoryFederatedData.shuffled_clients', 'in_memory_shuffled_pass', 'self.clients()', 'client_id, dataset',
+                      'client_id, dataset', 's', '{S}'),
+            O_expr('InMemoryFederatedData.client_sizes', 'in_memory_client_sizes_item', [('client_id', 'B')], ('B', 'R0'),
+                   lambda fd: _loop(fd).body[0].value.value, calls={'client_datasets.num_examples': _num_examples_call},
+                   shape=_for_yield('self._client_ids', ['client_id'], None), extra_params='{R0} (num_examples_of : bytes -> R0)'),
+            O_text('InMemoryFederatedData.client_sizes', _for_yield('self._client_ids', ['client_id'], None),
+                   'Definition in_memory_client_sizes (num_examples_of : bytes -> res Z) (client_ids0 : list bytes) : stream (bytes * Z) :=\n'
+                   '  for_yield (in_memory_client_sizes_item num_examples_of) client_ids0.'),
+            O_expr('InMemoryFederatedData.client_size', 'in_memory_client_size', [('client_id', 'B')], 'R0', _ret_value,
+                   calls={'client_datasets.num_examples': _num_examples_call}, shape=_only_return,
+                   extra_params='{R0} (num_examples_of : bytes -> R0)'),
+            O_expr('InMemoryFederatedData.get_client', 'in_memory_get_client', [('client_id', 'B')], 'R', _ret_value,
+                   calls={'self._client_dataset': ('client_dataset_of {0}', ['B'], 'R')}, shape=_only_return,
+                   extra_params='(client_dataset_of : bytes -> R)'),
+            O_same('InMemoryFederatedData.__init__', 'in_memory_init', """
+self._preprocess_client = preprocess_client
+self._preprocess_batch = preprocess_batch
+self._client_to_data_mapping = client_to_data_mapping
+self._client_ids = sorted(self._client_to_data_mapping.keys())
+self._features = list(self._client_to_data_mapping[
+    self._client_ids[0]].keys()) if self._client_ids else []
 for client_id in self._client_ids:
-  yield client_id, client_datasets.num_examples(
-      self._client_to_data_mapping[client_id], validate=False)
+  dataset = self._client_to_data_mapping[client_id]
+  if sorted(dataset.keys()) != sorted(self._features):
+    raise ValueError(
+        f'Inconsistent features, got {list(dataset.keys())} for client {client_id}, expect {self._features}'
+    )
+
+  num_samples = dataset[self._features[0]].shape[0]
+  try:
+    client_datasets.assert_consistent_rows(
+        self._client_dataset(client_id).all_examples())
+  except ValueError as exc:
+    raise ValueError(
+        f'Inconsistent examples, for client {client_id}') from exc
 """),
-            O_same('InMemoryFederatedData.client_size', 'in_memory_client_size', """
-return client_datasets.num_examples(
-    self._client_to_data_mapping[client_id], validate=False)
-"""),
-            O_same('InMemoryFederatedData.get_client', 'in_memory_get_client', "return self._client_dataset(client_id)"),
             O_expr('InMemoryFederatedData.num_clients', 'in_memory_num_clients', [('client_ids0', 'ids')], 'Z', _ret_value,
                    names=PRE_NAMES, shape=_only_return),
             O_expr('InMemoryFederatedData.client_ids', 'in_memory_client_ids', [('client_ids0', 'ids')], 'ids', _ret_value,
@@ -948,9 +1140,12 @@ return client_datasets.num_examples(
             O_expr('InMemoryFederatedData.clients', 'in_memory_clients_request', [('client_ids0', 'ids')], 'ids',
                    lambda fd: _strip_doc(fd.body)[0].value.value.args[0], names=PRE_NAMES, shape=_yield_from_get_clients),
             O_expr('InMemoryFederatedData.get_clients', 'in_memory_get_clients_item',
-                   [('client_id', 'B')], ('B', 'R'), lambda fd: _loop(fd).body[0].value.value,
-                   calls={'self._client_dataset': ('client_dataset_of {0}', ['B'], 'R')},
-                   shape=_for_yield('client_ids', ['client_id'], None), extra_params='(client_dataset_of : bytes -> R)'),
+                   [('client_id', 'B')], ('B', 'R0'), lambda fd: _loop(fd).body[0].value.value,
+                   calls={'self._client_dataset': ('client_dataset_of {0}', ['B'], 'R0')},
+                   shape=_for_yield('client_ids', ['client_id'], None), extra_params='{R0} (client_dataset_of : bytes -> R0)'),
+            O_text('InMemoryFederatedData.get_clients', _for_yield('client_ids', ['client_id'], None),
+                   'Definition in_memory_get_clients (client_dataset_of : bytes -> res D) (client_ids : list bytes) : stream (bytes * D) :=\n'
+                   '  for_yield (in_memory_get_clients_item client_dataset_of) client_ids.'),
         ],
     },
     'Gen_sqlite_federated_data': {
@@ -965,56 +1160,24 @@ return client_datasets.num_examples(
                    [('start', 'optB'), ('stop', 'optB'), ('client_id', 'B')], SELF_RANGE),
             B_test('SQLiteFederatedData.client_size', 'sqlite_client_size_in_range',
                    [('start', 'optB'), ('stop', 'optB'), ('client_id', 'B')], SELF_RANGE),
-            O_same('SQLiteFederatedData.num_clients', 'sqlite_num_clients', """
-cursor = self._connection.execute(
-    f'SELECT COUNT(*) FROM federated_data WHERE {self._range_where()};', {
-        'start': self._start,
-        'stop': self._stop
-    })
-return cursor.fetchone()[0]
-"""),
-            O_same('SQLiteFederatedData.client_ids', 'sqlite_client_ids', """
-cursor = self._connection.execute(
-    f'SELECT client_id FROM federated_data WHERE {self._range_where()} ORDER BY rowid;',
-    {'start': self._start, 'stop': self._stop})
-""" + SQL_FETCH_LOOP.format(item='result[0]')),
-            O_same('SQLiteFederatedData.client_sizes', 'sqlite_client_sizes', """
-cursor = self._connection.execute(
-    f'SELECT client_id, num_examples FROM federated_data WHERE {self._range_where()} ORDER BY rowid;',
-    {'start': self._start, 'stop': self._stop})
-""" + SQL_FETCH_LOOP.format(item='tuple(result)')),
-            O_same('SQLiteFederatedData._read_clients', 'sqlite_read_clients', """
-cursor = self._connection.execute(
-    f'SELECT client_id, data FROM federated_data WHERE {self._range_where()} ORDER BY rowid;',
-    {'start': self._start, 'stop': self._stop})
-""" + SQL_FETCH_LOOP.format(item='tuple(result)')),
-            O_same('SQLiteFederatedData.shuffled_clients', 'sqlite_shuffled_clients', """
-rng = np.random.RandomState(seed)
-while True:
-  for k, v in client_datasets.buffered_shuffle(self._read_clients(),
-                                               buffer_size, rng):
-    yield k, self._client_dataset(k, v)
-"""),
-            O_same('SQLiteFederatedData.client_size', 'sqlite_client_size', """
-if ((self._start is None or self._start <= client_id) and
-    (self._stop is None or client_id < self._stop)):
-  cursor = self._connection.execute(
-      'SELECT num_examples FROM federated_data WHERE client_id = ?',
-      [client_id])
-  result = cursor.fetchone()
-  if result is not None:
-    return result[0]
-raise KeyError
-"""),
-            O_same('SQLiteFederatedData.get_client', 'sqlite_get_client', """
-if ((self._start is None or self._start <= client_id) and
-    (self._stop is None or client_id < self._stop)):
-  cursor = self._connection.execute(
-      'SELECT data FROM federated_data WHERE client_id = ?', [client_id])
-  result = cursor.fetchone()
-  if result is not None:
-    return self._client_dataset(client_id, result[0])
-raise KeyError
+            Q_range('SQLiteFederatedData.num_clients', 'sqlite_num_clients'),
+            Q_range('SQLiteFederatedData.client_ids', 'sqlite_client_ids'),
+            Q_range('SQLiteFederatedData.client_sizes', 'sqlite_client_sizes'),
+            Q_range('SQLiteFederatedData._read_clients', 'sqlite_read_clients'),
+            Q_point('SQLiteFederatedData.client_size', 'sqlite_client_size', {'result[0]': 'Val {col}'}, '', 'Z'),
+            Q_point('SQLiteFederatedData.get_client', 'sqlite_get_client',
+                    {'self._client_dataset(client_id, result[0])': 'client_dataset_of client_id {col}'},
+                    '(client_dataset_of : bytes -> Dt -> res D)', 'D'),
+            O_shuffle('SQLiteFederatedData.shuffled_clients', 'sqlite_shuffled_pass', 'self._read_clients()', 'k, v',
+                      'k, self._client_dataset(k, v)', '(fst s, client_dataset_of (fst s) (snd s))',
+                      '{A R0} (client_dataset_of : bytes -> A -> R0)', '(bytes * A)'),
+            O_same('SQLiteFederatedData.__init__', 'sqlite_init', """
+self._connection = connection
+self._parse_examples = parse_examples
+self._start = start
+self._stop = stop
+self._preprocess_client = preprocess_client
+self._preprocess_batch = preprocess_batch
 """),
             O_same('SQLiteFederatedData.new', 'sqlite_new', """
 connection = sqlite3.connect(path)
@@ -1041,13 +1204,19 @@ return SQLiteFederatedData(connection, parse_examples)
                   ctors={'client_datasets.ClientDataset': (['E', 'gfns'], {})},
                   calls={'self._preprocess_client': _method_call('fns', 'client_preprocessor_call applyc {0} {1} {2}', ['B', 'E'], 'E', 'func')}),
             O_expr('SQLiteFederatedData.get_clients', 'sqlite_get_clients_item',
-                   [('client_id', 'B')], ('B', 'R'), lambda fd: _loop(fd).body[0].value.value,
-                   calls={'self.get_client': ('get_client_of {0}', ['B'], 'R')},
-                   shape=_for_yield('client_ids', ['client_id'], None), extra_params='(get_client_of : bytes -> R)'),
+                   [('client_id', 'B')], ('B', 'R0'), lambda fd: _loop(fd).body[0].value.value,
+                   calls={'self.get_client': ('get_client_of {0}', ['B'], 'R0')},
+                   shape=_for_yield('client_ids', ['client_id'], None), extra_params='{R0} (get_client_of : bytes -> R0)'),
             O_expr('SQLiteFederatedData.clients', 'sqlite_clients_item',
-                   [('k', 'B'), ('v', 'E')], ('B', 'R'), lambda fd: _loop(fd).body[0].value.value,
-                   calls={'self._client_dataset': ('client_dataset_of {0} {1}', ['B', 'E'], 'R')},
-                   shape=_for_yield('self._read_clients()', ['k', 'v'], None), extra_params='(client_dataset_of : bytes -> E -> R)'),
+                   [('k', 'B'), ('v', 'E')], ('B', 'R0'), lambda fd: _loop(fd).body[0].value.value,
+                   calls={'self._client_dataset': ('client_dataset_of {0} {1}', ['B', 'E'], 'R0')},
+                   shape=_for_yield('self._read_clients()', ['k', 'v'], None), extra_params='{R0} (client_dataset_of : bytes -> E -> R0)'),
+            O_text('SQLiteFederatedData.clients', _for_yield('self._read_clients()', ['k', 'v'], None),
+                   'Definition sqlite_clients (client_dataset_of : bytes -> E -> res D) (rows : list (bytes * E)) : stream (bytes * D) :=\n'
+                   '  for_yield (fun kv => sqlite_clients_item client_dataset_of (fst kv) (snd kv)) rows.'),
+            O_text('SQLiteFederatedData.get_clients', _for_yield('client_ids', ['client_id'], None),
+                   'Definition sqlite_get_clients (get_client_of : bytes -> res D) (client_ids : list bytes) : stream (bytes * D) :=\n'
+                   '  for_yield (sqlite_get_clients_item get_client_of) client_ids.'),
         ],
     },
 }
